@@ -597,6 +597,22 @@ def run(prog, rep, tier):
         if not openers:
             rep.violation(R53, inst + "|used", "%s: the selected path does not reach any open call" % path)
 
+    # ------------------------------------------------------------ R5.9 lift of C03 R3.8
+    import contextlib as _cl9, io as _io9
+    import c03 as _c03l
+    from common import Report as _Rep9
+    R59 = rep.rule("R5.9", "the search used for compressed files agrees with the one used for plain files (from C03 R3.8)")
+    _s3 = _Rep9("C03", "quick", dict(rep.meta))
+    _s3.finish = lambda *a, **k: 0
+    with _cl9.redirect_stdout(_io9.StringIO()):
+        _c03l.run(prog, _s3, "quick")
+    for (rid_, key_, what_, det_) in _s3.violations:
+        if rid_ in ("R3.8", "R3.6"):
+            rep.violation(R59, key_.split("|", 1)[1], what_)
+    for k_ in sorted(_s3.rules.get("R3.8", {}).get("keys", ())):
+        rep.examined(R59, k_, sample={"rule": "R3.8", "instance": k_})
+    rep.floor("R5.9", 3)
+
     # ------------------------------------------------------------ R5.8 sibling decoders size the block being read by the read cursor
     # Each streaming decoder (gz, bz2, lz4, xz) reads forward from its cursor up to the requested
     # block; the length of the block it is filling is that of the block *at the cursor*.  Using the
